@@ -197,6 +197,50 @@ Theorem C12_oracle_meaning : forall toks m o, prop_c12_b toks m o = true ->
 Proof. exact oracle_meaning. Qed.
 Print Assumptions C12_oracle_meaning.
 
+(* ---- 4b. ONE formatter object formats MANY messages: format is a function of (pattern, message) ----
+   [format_seq p leftover ms] runs the state machine of a PatternFormatter object ([calls_model]: the token
+   list made by the constructor + the thread's pending-remove counter, which the calls read and write) over
+   the messages [ms] in order, starting from an arbitrary left-over counter value.  Call by call the result is
+   what the pattern and THAT message give: which attributes the earlier (or later) messages had or lacked, how
+   many calls came before, and what was left in the counter do not matter.  (A literal after two adjacent
+   optional attributes loses 0, M1, M2 or M1+M2 units depending on the message at hand - nothing about it
+   can be remembered from one message to the next.)  The correspondence leg formats sequences of k >= 2
+   messages with different attribute sets on one real object and compares every result with this model. *)
+Theorem C12_format_is_a_function_of_pattern_and_message : forall p leftover ms,
+  format_seq p leftover ms = map (format_pattern p) ms.
+Proof. exact seq_stateless. Qed.
+Print Assumptions C12_format_is_a_function_of_pattern_and_message.
+Theorem C12_call_result_independent_of_history : forall p leftover history m later,
+  nth_error (format_seq p leftover (history ++ m :: later)) (length history) = Some (format_pattern p m).
+Proof. exact seq_history_independent. Qed.
+Print Assumptions C12_call_result_independent_of_history.
+(* the object is not changed by being used, and no pending removal is left behind for whatever formats next
+   on this thread *)
+Theorem C12_calls_leave_the_object_unchanged : forall p leftover ms,
+  otoks (snd (calls_model (construct p leftover) ms)) = parse_pattern p /\
+  (parse_pattern p <> [] -> ms <> [] -> opending (snd (calls_model (construct p leftover) ms)) = 0).
+Proof. exact (fun p l ms => conj (seq_object_unchanged p l ms) (seq_no_pending_left C12_source_removal_is_out_of_band p l ms)). Qed.
+Print Assumptions C12_calls_leave_the_object_unchanged.
+(* every result of a sequence satisfies the oracle of its own message *)
+Theorem C12_oracle_holds_of_sequence_model : forall p leftover ms, oracle_seq p ms (format_seq p leftover ms) = true.
+Proof. exact (oracle_seq_holds C12_source_removal_is_out_of_band). Qed.
+Print Assumptions C12_oracle_holds_of_sequence_model.
+Theorem C12_sequence_oracle_meaning : forall p ms os, oracle_seq p ms os = true ->
+  Forall2 (fun m o => oracle_pattern p m o = true) ms os.
+Proof. exact oracle_seq_meaning. Qed.
+Print Assumptions C12_sequence_oracle_meaning.
+(* not vacuous: a format() without its two counter resets is NOT a function of (pattern, message) *)
+Theorem C12_without_the_resets_history_matters : exists p m,
+  let o0 := construct p 0 in
+  fst (call_leaky o0 m) = x_l_out1 /\ fst (call_leaky (snd (call_leaky o0 m)) m) = x_l_out2 /\
+  format_seq p 0 [m; m] = [x_l_out1; x_l_out1].
+Proof. exact leaky_refuted. Qed.
+Print Assumptions C12_without_the_resets_history_matters.
+(* "%{a?,1}%{b?,1}::: %{message}": the literal ":::" loses 2, then 1, then 2 units on the same object *)
+Example C12_sequence_with_different_missing_attributes :
+  format_seq x_q_pat 3 [msg0 Info [109] []; msg0 Info [109] [([97], AStr [65])]; msg0 Info [109] []] = [x_q_o1; x_q_o2; x_q_o1].
+Proof. vm_compute. reflexivity. Qed.
+
 (* ---- 5. the repaired defect (DESIGN section 5, F4): the in-band marker evaluator is refuted ---- *)
 Theorem C12_inband_refuted_zero_width_space : exists p m,
   format_inband zwsp (parse_pattern p) m <> format_oob (parse_pattern p) m /\
